@@ -24,7 +24,7 @@ RULE = ('cases = (file list, execution mode, worker count, completion order); ev
         'n<=5 files (thorough: n<=7) through a caller-supplied executor; real thread/process pools with size skew + injected delays, '
         'observed completion orders recorded; unreadable / malformed file at every position; non-trivial = >=2 files; '
         'distinct = (mode, n, workers, order or failure position) by hash')
-ASSUMPTIONS = ['"cannot be read or parsed" = the single-file function raises for that file',
+ASSUMPTIONS = ['"cannot be read or parsed" is decided without the library: the bytes cannot be obtained (missing, directory), the gzip stream is broken, or the content is not text',
                'forcing relies on the documented executor / progress-meter parameters only; the delivered order is recorded by wrapping as_completed in the module namespace']
 REACH = ['gambit.sigs.calc:calc_file_signatures', 'gambit.sigs.calc:calc_file_signature']
 ACK_TIMEOUT = 3.0
@@ -440,12 +440,26 @@ def run_fail(sh, ctx):
 	failing = []
 	for kd in kinds:
 		bf = bad_file(ctx, kd, 'probe')
+		# "cannot be read or parsed", decided without the library: the bytes cannot be obtained, the gzip stream is broken, or the
+		# content is not text
 		try:
-			gc.calc_file_signature(ks, bf)
-			ctx.count(f'single_file_accepts:{kd}')
+			data = open(bf.path, 'rb').read()
+			if data[:2] == b'\x1f\x8b':
+				data = gzip.decompress(data)
+			data.decode('ascii')
+			unreadable = False
+		except Exception:
+			unreadable = True
+		try:
+			r1 = gc.calc_file_signature(ks, bf)
 		except Exception as e:
 			failing.append(kd)
 			ctx.seen('single_file_errors', f'{kd}:{type(e).__name__}')
+		else:
+			ctx.count(f'single_file_accepts:{kd}')
+			if unreadable:
+				failing.append(kd)
+				ctx.violation('returns-despite-bad-file', f'calc_file_signature returned {type(r1).__name__} for a file that cannot be read or parsed ({kd})', dict(bad_kind=kd, mode='single file'))
 	t = 0
 	for n in range(1, sh['nmax'] + 1):
 		good, exps = make_files(ctx, rng, n, tag=f'g{n}_')
